@@ -6,6 +6,7 @@ package server
 
 import (
 	"runtime"
+	"strconv"
 	"strings"
 )
 
@@ -59,4 +60,36 @@ func VerifC09LeaseGoroutinesSettled() bool {
 		}
 	}
 	return true
+}
+
+// VerifC09LeaseGoroutineIDs returns the goroutine ids of the live lease-timer goroutines (ids grow with
+// creation, so a set taken at one moment identifies the timers that were already running then).
+func VerifC09LeaseGoroutineIDs() map[int]bool {
+	buf := verifC09Buf
+	for {
+		n := runtime.Stack(buf, true)
+		if n < len(buf) {
+			buf = buf[:n]
+			break
+		}
+		buf = make([]byte, 2*len(buf))
+		verifC09Buf = buf
+	}
+	ids := map[int]bool{}
+	for _, g := range strings.Split(string(buf), "\n\n") {
+		if !strings.Contains(g, "RefreshFullSyncLease.func") {
+			continue
+		}
+		g = strings.TrimLeft(g, "\n")
+		if !strings.HasPrefix(g, "goroutine ") {
+			continue
+		}
+		rest := g[len("goroutine "):]
+		if i := strings.IndexByte(rest, ' '); i > 0 {
+			if id, err := strconv.Atoi(rest[:i]); err == nil {
+				ids[id] = true
+			}
+		}
+	}
+	return ids
 }
